@@ -1,3 +1,15 @@
 import GoRedisModel.Properties.C10
 open GoRedis
-#print axioms C10_placeholder
+#print axioms C10_rejected_table
+#print axioms C10_rejected_no_call
+#print axioms C10_bad_integer_tokens
+#print axioms C10_dangling_pair
+#print axioms C10_mset_dangling
+#print axioms C10_mset_empty
+#print axioms C10_zadd_dangling_score
+#print axioms C10_zadd_lone_score
+#print axioms C10_set_conflict
+#print axioms C10_set_bad_expiry
+#print axioms C10_setex_nonpositive
+#print axioms C10_zrange_fractional_index
+#print axioms C10_strlen_missing_key
